@@ -818,10 +818,10 @@ mod v_wire_views {
         kani::cover!(matches!(s, Ok(x) if x.window_scale.is_some() && x.max_segment_size.is_some()), "tcp: options summary with MSS and window scale");
         kani::cover!(s.is_err(), "tcp: options summary rejects a malformed option");
     }
-    // @harness props=C07,C03 cfg=KW tier=q to=1200 mem=8 unwind=10 opts=term covers=2 funcs=TcpPacket::new_checked;TcpPacket::options;TcpPacket::payload;TcpPacket::segment_len;TcpOption::parse;TcpRepr::parse bounds=any_bytes_len_0..=28_(<=8_option_bytes)
+    // @harness props=C07,C03 cfg=KW tier=q to=1200 mem=8 unwind=10 opts=term covers=2 funcs=TcpPacket::new_checked;TcpPacket::options;TcpPacket::payload;TcpPacket::segment_len;TcpOption::parse;TcpRepr::parse bounds=any_bytes_len_0..=30_(<=8_option_bytes)
     #[kani::proof]
     pub(crate) fn view_tcp() {
-        tcp_view::<28>();
+        tcp_view::<30>();
     }
     // @harness props=C07,C03 cfg=KW tier=q to=1200 mem=8 unwind=10 opts=term covers=2 funcs=TcpPacket::selective_ack_permitted;TcpOption::parse bounds=any_bytes_len_0..=28_(<=8_option_bytes)
     #[kani::proof]
@@ -944,22 +944,85 @@ mod v_wire_views {
     pub(crate) fn view_dhcp() {
         dhcp_view::<246>();
     }
-    // message type (3 bytes) + DNS server option with one address (6 bytes) need 9 option bytes
-    // @harness props=C07,C03 cfg=KW tier=q to=1500 mem=10 unwind=11 opts=term covers=2 funcs=DhcpRepr::parse;DhcpPacket::options bounds=any_bytes_len_0..=249_(240_header_+_<=9_option_bytes)
-    #[kani::proof]
-    pub(crate) fn view_dhcp_repr() {
-        dhcp_repr_view::<249>();
-    }
     // @harness props=C07,C03 cfg=KW tier=t to=3600 mem=16 unwind=18 opts=term covers=2 funcs=DhcpPacket::new_checked;DhcpPacket::options;DhcpPacket::client_hardware_address;DhcpPacket::flags bounds=any_bytes_len_0..=256_(240_header_+_<=16_option_bytes)
     #[kani::proof]
     pub(crate) fn view_dhcp_t() {
         dhcp_view::<256>();
     }
-    // @harness props=C07,C03 cfg=KW tier=t to=3600 mem=16 unwind=18 opts=term covers=2 funcs=DhcpRepr::parse;DhcpPacket::options bounds=any_bytes_len_0..=256_(240_header_+_<=16_option_bytes)
+    // DhcpRepr::parse on free-form option bytes is out of reach of the quick tier (5 option bytes: 1.3 M
+    // steps, 10 min; 9 bytes: no answer in 25 min), so the quick tier runs it on option lists of concrete
+    // shape (kinds and lengths from a template, all values and the fixed header symbolic, optionally one
+    // length octet symbolic) and the thorough tier on 5 free bytes.
+    // @harness props=C07,C03 cfg=KW tier=t to=3600 mem=12 unwind=7 opts=term,fs300 covers=2 funcs=DhcpRepr::parse;DhcpPacket::options bounds=any_bytes_len_0..=245_(240_header_+_<=5_option_bytes)
     #[kani::proof]
     pub(crate) fn view_dhcp_repr_t() {
-        dhcp_repr_view::<256>();
+        dhcp_repr_view::<245>();
     }
+
+    /// `shape`: option kinds and lengths; values, header and magic cookie symbolic; `bad`: index of an
+    /// option whose length octet is symbolic as well (zero, short, oversized); `cut`: the buffer ends
+    /// `cut` bytes before the end of the option list (truncated message).
+    fn dhcp_shape_view<const K: usize>(shape: [(u8, u8); K], bad: usize, cut: usize) -> (bool, bool, bool, bool) {
+        let mut bytes = [0u8; 300];
+        let hdr: [u8; 34] = kani::any();
+        bytes[..34].copy_from_slice(&hdr);
+        let magic: [u8; 4] = kani::any();
+        bytes[236..240].copy_from_slice(&magic);
+        let mut o = 240;
+        let mut j = 0;
+        while j < K {
+            let (kind, l) = shape[j];
+            bytes[o] = kind;
+            bytes[o + 1] = if j == bad { kani::any() } else { l };
+            let v: [u8; 8] = kani::any();
+            let mut m = 0;
+            while m < l as usize {
+                bytes[o + 2 + m] = v[m];
+                m += 1;
+            }
+            o += 2 + l as usize;
+            j += 1;
+        }
+        bytes[o] = 0; // pad
+        bytes[o + 1] = 255; // end
+        let b = &bytes[..o + 2 - cut];
+        if DhcpPacket::new_checked(b).is_err() {
+            return (false, false, false, false);
+        }
+        let p = DhcpPacket::new_unchecked(b);
+        match DhcpRepr::parse(&p) {
+            Ok(r) => (true, r.dns_servers.is_some(), r.lease_duration.is_some(), r.client_identifier.is_some()),
+            Err(_) => (false, false, false, false),
+        }
+    }
+    // @harness props=C07,C03 cfg=KW tier=q to=600 mem=6 unwind=12 opts=term,fs300 covers=1 funcs=DhcpRepr::parse;DhcpPacket::options bounds=option_list_shape_53/1,1/4,3/4,51/4,58/4,59/4,54/4,6/8,pad,end;_all_values_and_header_symbolic
+    #[kani::proof]
+    pub(crate) fn view_dhcp_repr_shape_server() {
+        let r = dhcp_shape_view::<8>([(53, 1), (1, 4), (3, 4), (51, 4), (58, 4), (59, 4), (54, 4), (6, 8)], 99, 0);
+        kani::cover!(r.0 && r.1 && r.2, "dhcp: server-shaped option list parsed");
+    }
+    // @harness props=C07,C03 cfg=KW tier=q to=600 mem=6 unwind=12 opts=term,fs300 covers=1 funcs=DhcpRepr::parse;DhcpPacket::options bounds=option_list_shape_53/1,61/7,50/4,57/2,55/3,pad,end;_all_values_and_header_symbolic
+    #[kani::proof]
+    pub(crate) fn view_dhcp_repr_shape_client() {
+        let r = dhcp_shape_view::<5>([(53, 1), (61, 7), (50, 4), (57, 2), (55, 3)], 99, 0);
+        kani::cover!(r.0 && r.3, "dhcp: client-shaped option list parsed");
+    }
+    // zero / short / oversized length octet in the middle of the list
+    // @harness props=C07,C03 cfg=KW tier=q to=900 mem=8 unwind=12 opts=term,fs300 covers=2 funcs=DhcpRepr::parse;DhcpPacket::options bounds=option_list_shape_53/1,6/any,51/4,pad,end;_length_octet_of_the_DNS_option_symbolic
+    #[kani::proof]
+    pub(crate) fn view_dhcp_repr_shape_bad_len() {
+        let r = dhcp_shape_view::<3>([(53, 1), (6, 8), (51, 4)], 1, 0);
+        kani::cover!(r.0 && r.1 && !r.2, "dhcp: DNS option with a length that swallows the next option");
+        kani::cover!(r.0 && !r.1, "dhcp: oversized option ends the list");
+    }
+    // truncated message: the buffer ends inside the last option
+    // @harness props=C07,C03 cfg=KW tier=q to=600 mem=6 unwind=12 opts=term,fs300 covers=1 funcs=DhcpRepr::parse;DhcpPacket::options bounds=option_list_shape_53/1,51/4,6/8_cut_5_bytes_short
+    #[kani::proof]
+    pub(crate) fn view_dhcp_repr_shape_truncated() {
+        let r = dhcp_shape_view::<3>([(53, 1), (51, 4), (6, 8)], 99, 5);
+        kani::cover!(r.0 && !r.1 && r.2, "dhcp: truncated last option ignored");
+    }
+
     // sname / boot-file strings: K leading bytes of each field symbolic, the remainder zero
     // (fs300: the 240-byte array is split into scalars, so the position() scan sees the zero tail as
     // constants and stops after K+1 steps instead of being unrolled 74/128 times)
@@ -1041,43 +1104,68 @@ mod v_wire_views {
         dns_view::<52>();
     }
 
-    fn dns_name_view<const N: usize>() {
+    // DnsPacket::parse_name.  Iterating a whole name in one query is out of reach (nested symbolic
+    // slices: 12 bytes = 2.7 M steps, out of memory at 12 GB), so the harness takes ONE step from ANY
+    // iterator state.  The iterator's state is the pair (bytes, packet); `packet` always is a prefix
+    // `b[..q]` of the buffer (`packet = &packet[..ptr]`) and `bytes` a sub-slice `b[s..e]` of it
+    // (`bytes = &packet[ptr..]`, `bytes = &bytes[1 + len..]`), and a fresh `parse_name(&b[s..e])` on the view
+    // of `b[..q]` starts in exactly that state: every state a longer iteration can reach is covered.
+    // Termination of one step: the first jump goes below q, every further one needs a 2-byte pointer
+    // inside the part just cut off, so <= q/2+1 jumps (+1 final step): unwind = N/2 + 3, and an
+    // unwinding failure counts as a violation (self-referential and mutually referential pointers
+    // are inside the quantification).  Termination of the whole iteration then follows from the
+    // lexicographic measure (|packet|, |bytes|), which every step that returns a label decreases.
+    fn dns_name_step_view<const N: usize>() {
         let bytes: [u8; N] = kani::any();
         let len = any_le(N);
         let b = &bytes[..len];
-        if DnsPacket::new_checked(b).is_ok() {
-            // same value as the one inside the Ok (see icmpv6_view)
-            let p = DnsPacket::new_unchecked(b);
-            // `bytes` = any suffix of the packet (a name field of a question/record, as in socket::dns)
-            let off = any_le(N);
-            kani::assume(off <= len);
-            let mut labels = 0usize;
-            let mut err = false;
-            for l in p.parse_name(&b[off..]) {
-                // consumers stop at the first error (`let l = l?;` in socket::dns)
-                if l.is_err() {
-                    err = true;
-                    break;
-                }
-                labels += 1;
-            }
-            kani::cover!(labels >= 2 && !err, "dns name: two labels, terminated");
-            kani::cover!(err && off + 1 < len && b[off] == 0xc0 && b[off + 1] as usize == off, "dns name: pointer to itself rejected");
+        if DnsPacket::new_checked(b).is_err() {
+            return;
         }
+        let q = any_le(N);
+        let s = any_le(N);
+        let e = any_le(N);
+        kani::assume(q <= len && s <= e && e <= len);
+        let p = DnsPacket::new_unchecked(&b[..q]);
+        let mut it = p.parse_name(&b[s..e]);
+        let r = it.next();
+        kani::cover!(matches!(r, Some(Ok(l)) if l.len() == 3) && b[s] >= 0xc0, "dns name step: pointer followed, label returned");
+        kani::cover!(matches!(r, Some(Err(_))) && s + 1 < e && b[s] == 0xc0 && b[s + 1] as usize == s && q > s, "dns name step: pointer to itself rejected");
+        kani::cover!(r.is_none(), "dns name step: end of name");
     }
-    // Each pointer jump strictly shrinks the readable prefix (`packet = &packet[..ptr]`) and the bytes
-    // read after a jump lie inside the part just cut off, so the label segments are disjoint: a label
-    // takes >= 2 bytes and a pointer 2 bytes, hence <= N/2 labels overall and <= N/2 jumps (+1 step)
-    // inside one next().  unwind = N/2 + 2.
-    // @harness props=C07,C03 cfg=KW tier=q to=1200 mem=8 unwind=10 opts=term covers=2 funcs=DnsPacket::parse_name bounds=any_bytes_len_0..=16;_name_starting_at_any_offset;_self-referential_pointers_included
+    // @harness props=C07,C03 cfg=KW tier=q to=900 mem=6 unwind=19 opts=term covers=3 funcs=DnsPacket::parse_name bounds=any_bytes_len_0..=32;_one_next()_from_any_iterator_state_(bytes=b[s..e],_packet=b[..q])
     #[kani::proof]
-    pub(crate) fn view_dns_name() {
-        dns_name_view::<16>();
+    pub(crate) fn view_dns_name_step() {
+        dns_name_step_view::<32>();
     }
-    // @harness props=C07,C03 cfg=KW tier=t to=3600 mem=16 unwind=14 opts=term covers=2 funcs=DnsPacket::parse_name bounds=any_bytes_len_0..=24;_name_starting_at_any_offset;_self-referential_pointers_included
+    // @harness props=C07,C03 cfg=KW tier=t to=3600 mem=12 unwind=35 opts=term covers=3 funcs=DnsPacket::parse_name bounds=any_bytes_len_0..=64;_one_next()_from_any_iterator_state_(bytes=b[s..e],_packet=b[..q])
     #[kani::proof]
-    pub(crate) fn view_dns_name_t() {
-        dns_name_view::<24>();
+    pub(crate) fn view_dns_name_step_t() {
+        dns_name_step_view::<64>();
+    }
+    // The first three steps of a real iteration, chained (state handed over by the iterator itself).
+    // @harness props=C07,C03 cfg=KW tier=q to=1200 mem=8 unwind=11 opts=term covers=1 funcs=DnsPacket::parse_name bounds=any_bytes_len_0..=16;_name_at_any_offset;_first_3_steps
+    #[kani::proof]
+    pub(crate) fn view_dns_name_three_steps() {
+        const N: usize = 16;
+        let bytes: [u8; N] = kani::any();
+        let len = any_le(N);
+        let b = &bytes[..len];
+        if DnsPacket::new_checked(b).is_err() {
+            return;
+        }
+        let p = DnsPacket::new_unchecked(b);
+        let off = any_le(N);
+        kani::assume(off <= len);
+        let mut it = p.parse_name(&b[off..]);
+        let r1 = it.next();
+        if let Some(Ok(_)) = r1 {
+            let r2 = it.next();
+            if let Some(Ok(_)) = r2 {
+                let r3 = it.next();
+                kani::cover!(r3.is_none() && b[off] >= 0xc0, "dns name: compressed name of two labels read to its end");
+            }
+        }
     }
 
     // ------------------------------------------------------------------ IEEE 802.15.4
